@@ -33,6 +33,8 @@ def run(ctx):
     ctx.require(fr, 'limits-filter helper')
     norm = _norm_role(ctx, prog)
     sorter = _sort_role(ctx, prog)
+    ctx.rule('R04.7', 'constants of the near-normaliser and of the continuation entry points that stand for pi or 2*pi are exact')
+    util.pi_constants(ctx, 'R04.7', [norm] + [methods[m] for m in ('inverse_continuing', 'inverse_continuing_5dof')])
     conts = ['inverse_continuing', 'inverse_continuing_5dof']
     entry_paths = {methods[m].path: m for m in conts}
     for m in conts:
